@@ -9,8 +9,9 @@ class ToolInputSchema(McpPydanticBase):
     type: str
     """The schema type (typically 'object')."""
 
-    properties: Dict[str, Any]
-    """Schema properties defining the tool parameters."""
+    properties: Optional[Dict[str, Any]] = None
+    """Schema properties defining the tool parameters (optional in the MCP
+    schema: a tool without parameters has just {"type": "object"})."""
 
     required: Optional[List[str]] = None
     """List of required parameter names."""
